@@ -20,8 +20,8 @@ ASSUMPTIONS = ['"no alignment exists" is read as "no alignment of finite total c
                'failure must be reported as ValueError (the documented exception)',
                'ties: any optimal alignment is accepted (costs are compared, not paths)']
 N = {'quick': 4000, 'thorough': 150000}
-CLASSES = ['continuous', 'integer_ties', 'with_inf', 'boundary', 'small_brute', 'small_brute_inf', 'blank_in_labels', 'long', 'float32', 'float32_long', 'large_alphabet']
-REQUIRED = ['negative_blank_index', 'narrow_label_arrays', 'presentation:0', 'presentation:1', 'presentation:2', 'presentation:5', 'float32_matrices', 'feasible_checked', 'infeasible_checked', 'brute_checked', 'align_text_checked', 'nojit_compared']
+CLASSES = ['continuous', 'integer_ties', 'with_inf', 'boundary', 'small_brute', 'small_brute_inf', 'blank_in_labels', 'long', 'float32', 'float32_long', 'large_alphabet', 'very_long', 'huge_costs']
+REQUIRED = ['presentation:6', 'frames_over_32767', 'huge_cost_matrices', 'negative_blank_index', 'narrow_label_arrays', 'presentation:0', 'presentation:1', 'presentation:2', 'presentation:5', 'float32_matrices', 'feasible_checked', 'infeasible_checked', 'brute_checked', 'align_text_checked', 'nojit_compared']
 TIMEOUT = {'quick': 900, 'thorough': 7200}
 
 
@@ -44,6 +44,10 @@ def gen(rng, i, ctx=None):
     if cls == 'large_alphabet':
         C = int(rng.choice([130, 257, 300]))
         T = int(rng.integers(1, 25))
+    if cls == 'very_long':
+        # a line of more frames than a 16-bit index can address (rare; the oracle needs about a second for it), otherwise an ordinary long line
+        T = int(rng.integers(33000, 36000)) if (i // len(CLASSES)) % 30 == 0 else int(rng.integers(100, 400))
+        C = int(rng.integers(2, 5))
     blank = int(rng.integers(0, C)) if cls != 'large_alphabet' or rng.random() < 0.3 else C - 1
     nonblank = [c for c in range(C) if c != blank]
     if cls == 'large_alphabet':
@@ -51,6 +55,8 @@ def gen(rng, i, ctx=None):
     L = int(rng.integers(1, T + 2))
     if cls in ('long', 'float32', 'float32_long'):
         L = int(rng.integers(1, max(2, T // 2)))
+    if cls == 'very_long':
+        L = int(rng.integers(1, 6))
     labels = [int(rng.choice(nonblank)) for _ in range(L)]
     if rng.random() < 0.4:
         for k in range(1, L):
@@ -70,6 +76,10 @@ def gen(rng, i, ctx=None):
     if cls.startswith('float32'):
         # what the networks deliver: float32 negative log-probabilities, possibly with a large common offset
         cost = (cost + float(rng.choice([0.0, 0.0, 50.0, 500.0]))).astype(np.float32)
+    if cls == 'very_long' and T > 32767:
+        cost[T - 3, labels[-1]] = -50.0          # the last character is clearly written near the end of the line
+    if cls == 'huge_costs':
+        cost = cost * float(rng.choice([1e39, 1e120, 1e300 / max(T, 1) / 50]))        # finite double-precision costs beyond the single-precision range
     case = {'cost': cost, 'labels': labels, 'blank': blank, 'cls': cls}
     # drawn last: the blank given numpy-style as a negative index (same column), and for large alphabets the labels as a narrow integer array
     if cls != 'blank_in_labels' and rng.random() < 0.15:
@@ -105,8 +115,12 @@ def check(case, mon, ctx):
     brute = min_cost_brute(rows, labels, bpos, limit=5000)
     if brute is not None:
         mon.count('brute_checked')
-        if not (brute == opt or abs(brute - opt) < 1e-9):
+        if not (brute == opt or abs(brute - opt) < 1e-9 * max(1.0, abs(opt))):
             raise RuntimeError('oracle self-check failed: DP %r vs brute force %r' % (opt, brute))
+    if T > 32767:
+        mon.count('frames_over_32767')
+    if case['cls'] == 'huge_costs' and np.isfinite(cost).any() and float(cost[np.isfinite(cost)].max(initial=0)) > 3.5e38:
+        mon.count('huge_cost_matrices')
     if blank < 0:
         mon.count('negative_blank_index')
     if case.get('labels_dtype') not in (None, 'list'):
@@ -138,7 +152,7 @@ def check(case, mon, ctx):
         mon.violation('minimal-cost', {'alignment': al, 'cost': c, 'optimal': opt})
     # the same numbers presented differently (memory layout of the matrix, container of the labels): a minimal-cost alignment again, and the caller's
     # matrix is left unchanged
-    variant = (T + len(labels) + blank) % 6
+    variant = (T + len(labels) + blank) % 7
     mon.count('presentation:%d' % variant)
     big = np.full((T + 3, 2 * cost.shape[1] + 1), 7.0, dtype=cost.dtype)
     if variant == 0:
@@ -152,8 +166,10 @@ def check(case, mon, ctx):
         cv, lv = cost.copy(), tuple(int(x) for x in labels)
     elif variant == 4:
         cv, lv = cost.copy(), np.array(labels, dtype=np.int64)
-    else:
+    elif variant == 5:
         cv, lv = cost[::-1][::-1], [np.int64(x) for x in labels]                # negative-stride round trip, numpy integer scalars
+    else:
+        cv, lv = cost.copy(), [int(x) - cost.shape[1] for x in labels]          # the labels addressed numpy-style from the end (-1 = last class), like the blank may be
     keep = np.array(cv, copy=True)
     try:
         r3 = fa.force_align(cv, lv, blank)
